@@ -705,6 +705,10 @@ func validateEphemeralSiafundElement(ms *MidState, sfi types.V2SiafundInput) err
 		return fmt.Errorf("spends nonexistent ephemeral output %v", sfi.Parent.ID)
 	} else if ms.base.childHeight() >= ms.base.Network.HardforkV2.EphemeralOutputHeight {
 		return fmt.Errorf("spends ephemeral output %v", sfi.Parent.ID)
+	} else if sfi.Parent.ClaimStart.Cmp(ms.siafundTaxRevenue) > 0 {
+		// the claimed contents of an ephemeral parent are not checked before
+		// the hardfork, but the claim is computed from them when applying
+		return fmt.Errorf("claims impossible claim start (%v) for ephemeral output %v", sfi.Parent.ClaimStart, sfi.Parent.ID)
 	}
 	return nil
 }
